@@ -560,15 +560,15 @@ def boundary_variants(rng, cases, count, max_len=65537):
             ch = cs[i] if cs else 97
             if 48 <= ch <= 57 and L > 5000:
                 L = 4096                      # very long digit runs cost the model minutes (unbounded Z arithmetic)
-            if ch in (123, 125, 42, 60, 62) and L > 300:
-                ch = 97                       # thousands of braces, stars or operators are a cost question, not a boundary question
+            if ch in (123, 125, 42) and L > 300:
+                ch = 97                       # thousands of braces or stars are a cost question, not a boundary question
             new = cs[:i] + [ch] * (L - 1) + cs[i:]
             kind = "run-%d" % L
         elif r < 0.6:
             # the whole argument brought to a boundary length by repeating its last character
             L = rng.choice(lengths[:11])
             ch = cs[-1] if cs else 97
-            if (48 <= ch <= 57) or ch in (123, 125, 42, 10, 60, 62):
+            if (48 <= ch <= 57) or ch in (123, 125, 42, 10):
                 ch = 97
             new = cs + [ch] * max(0, L - len(cs))
             kind = "total-%d" % L
